@@ -9,6 +9,8 @@ import r_cand
 import r_token
 import r_scorer
 import r_misc
+import r_fmt
+import r_cost
 
 NA = {
     "C17": "first-match order of a backtracking trie matcher over runtime rule lists: no structural "
@@ -25,6 +27,91 @@ def kind_scope(*mods):
 
 
 PROPS = {
+    "C11": {
+        "rules": [r_fmt.lexicon_rows_reader, r_misc.parallel,
+                  kind_scope("dictionary::lexicon", "dictionary::unknown")],
+        "explanation": "FMT(reader side): parse_csv stores CSV column 1, 2, 3 into left_id, "
+                       "right_id, word_cost (column -> WordParam::new parameter -> field, KIND "
+                       "checked); PARALLEL: Lexicon::from_entries builds map, params and features "
+                       "from the same slice with order-preserving adaptors, word id = row index, "
+                       "homographs are appended to the surface's id list.",
+        "level_text": "Static structural rules: column k lands in the right WordParam field, "
+                      "rows stay aligned across map/params/features, homographs are kept. The "
+                      "byte accounting of the feature span, quoting and EOF/blank-line variants "
+                      "are value-level behaviour of the csv-core state machine and are NOT "
+                      "decided.",
+        "level_note": "Trusted: rustc MIR; csv-core; spec/kinds.json.",
+        "technique": "column-to-field dataflow rule, iterator-chain shape rules, kind propagation",
+    },
+    "C14": {
+        "rules": [r_fmt.run_c14, r_cost.run_c14, kind_scope("trainer::model")],
+        "explanation": "FMT: each generated file's row template (delimiters, column count and "
+                       "order, quoted surface first, feature last) matches what the compiler's "
+                       "reader does with each column (parse_csv column->field mapping, "
+                       "parse_header/parse_body split char, column count and tuple order); SIGN: "
+                       "every cost is -(weight x factor); SCALE: one factor = 32767/max|w| with "
+                       "abs() over feature-set weights and matrix values; COSTTYPE: the cast "
+                       "width equals the reader's parsed type; KIND: left/right ids not crossed; "
+                       "user rows copied from `param` in the else-branch.",
+        "level_text": "Static writer/reader agreement and sign/scale shape rules. The truncation "
+                      "value, the 16-bit fit as numbers and 'always compiles' are not decided.",
+        "level_note": "Trusted: rustc MIR incl. the format_args! template encoding documented in "
+                      "core::fmt (decoder fails closed); csv-core defaults (comma).",
+        "technique": "format-template decoding from MIR + reader dataflow (sibling cross-check), "
+                     "sign-parity and scale-source rules",
+    },
+    "C16": {
+        "rules": [r_fmt.run_c16, r_cost.run_c16, kind_scope("trainer::model", "raw_connector")],
+        "explanation": "FMT: bigram.left/right lines are `id TAB csv` with 1-based ids (what "
+                       "parse_features and the id == line+1 check require); bigram.cost lines are "
+                       "`left-word feature / right-word feature TAB cost`, matching the order in "
+                       "which parse_cost interns them; SCALE: write_bigram_details derives its "
+                       "factor from the same sources as write_dictionary; SIGN; COSTTYPE: "
+                       "bigram.cost is written as i32, the type parse_cost reads.",
+        "level_text": "Static writer/reader agreement, same-scale and sign rules. The K+1 rounding "
+                      "bound itself is not decided.",
+        "level_note": "Trusted: as for C14.",
+        "technique": "format-template decoding + reader dataflow, scale-source comparison",
+    },
+    "C18": {
+        "rules": [kind_scope("trainer", "mecab"), r_fmt.bigram_files],
+        "explanation": "KIND over the trainer: unigram/left/right templates, id tables and "
+                       "next-id counters are never mixed (same-family rule on "
+                       "extract_feature_ids), extract_left/right results reach the matching "
+                       "FeatureSet::new parameter of rucrf, left/right rewriters are applied to "
+                       "their own side, and per-id feature lists reach the file of their side "
+                       "(KIND-WRITE); FMT(bigram lists).",
+        "level_text": "Static role-kind propagation: left/right/unigram template, table and "
+                      "counter are never mixed and feature lists reach the right file. `%F?` "
+                      "semantics and interning arithmetic are not decided.",
+        "level_note": "Trusted: spec/kinds.json incl. the declared roles of rucrf::FeatureSet::new "
+                      "and MergedModel fields.",
+        "technique": "kind propagation with family-polymorphic helper rule",
+    },
+    "C19": {
+        "rules": [r_fmt.run_c19],
+        "explanation": "FMT: Example::write emits `surface TAB feature` lines and an `EOS` line on "
+                       "every path using complete writes; the tokenizer CLI's MeCab mode emits "
+                       "the same shape; Corpus::from_reader splits at the same TAB into exactly "
+                       "(surface, feature), takes surface from the first part, and recognises the "
+                       "same terminator literal.",
+        "level_text": "Static agreement of delimiter, terminator and column order between the two "
+                      "writers and the reader. Round-trip equality of contents is not decided.",
+        "level_note": "Trusted: rustc MIR; format template decoding.",
+        "technique": "format-template decoding + reader dataflow (sibling cross-check)",
+    },
+    "C20": {
+        "rules": [kind_scope("mecab"), r_cost.run_c20, r_fmt.bigram_files],
+        "explanation": "KIND: the documented left/right inversion of right-id.def/left-id.def is "
+                       "applied consistently (readers, extractors, maps, writers, loop bounds vs "
+                       "looked-up map); SIGN: cost = -(weight x factor); COSTTYPE: i32 as the "
+                       "connector reads; FMT: output shape (1-based dense ids, `a/b TAB cost`) "
+                       "matches the connector's readers.",
+        "level_text": "Static role and format rules. The sum over templates, cost-factor "
+                      "truncation and id-density error cases are not decided.",
+        "level_note": "Trusted: spec/kinds.json.",
+        "technique": "kind propagation, format-template decoding, sign-parity rule",
+    },
     "C07": {
         "rules": [r_scorer.run, kind_scope("connector", "scorer", "builder")],
         "explanation": "SCORERCHK: in the portable build costs[pos] is read only on the true edge "
@@ -58,7 +145,7 @@ PROPS = {
         "technique": "kind propagation (NODE/WORD/END), must-pass-through and loop-guard rules",
     },
     "C13": {
-        "rules": [r_reset.run_counts, r_viterbi.pred, r_misc.enumall,
+        "rules": [r_reset.run_counts, r_viterbi.pred, r_misc.enumall, r_fmt.mapping_files,
                   kind_scope("mapper", "worker", "lattice")],
         "explanation": "RESET(W2, counts scope): update_connid_counts reads only a lattice that "
                        "the current reset_sentence/tokenize refreshed (or returns for an empty "
@@ -66,7 +153,9 @@ PROPS = {
                        "nodes from ends[r.start_node], the list its connections were evaluated "
                        "on, EOS included; KIND: left/right counters and sizes are not crossed; "
                        "ENUMALL: each result list enumerates the whole counter, removes exactly "
-                       "id 0 and is only sorted afterwards.",
+                       "id 0 and is only sorted afterwards; FMT: reorder writes "
+                       "`id TAB prob` lines, lmap from the left list and rmap from the right "
+                       "list, and map parses column 0 of a TAB separated line.",
         "level_text": "Static dataflow/shape rules: counts come from the current sentence only, "
                       "counted pairs are the evaluated pairs, the output is a complete "
                       "enumeration minus id 0. The sort order by frequency is not decided.",
